@@ -46,7 +46,10 @@ K_ONE = {
 # slice code (one=False): (text, fst-mode) per category
 K_SEQ = {
     'expr': [('a, b', 'Tuple'), ('x,', 'Tuple'), ('()', 'Tuple'), ('[p, q, r]', 'List'), ('{s}', 'Set'),
-             ('a, # c7\nb', 'Tuple'), ('(i,\n j)', 'Tuple')],
+             ('a, # c7\nb', 'Tuple'), ('(i,\n j)', 'Tuple'),
+             # (7..9) multi-line code indented deeper than where it goes, with a continuation line that is shallower than its neighbours
+             ('[\n        x,\n        (y,\n  z),\n]', 'List'), ('(\n      p,\n      f(q,\n r), s\n)', 'Tuple'),
+             ('[\n            m,\n            """t\n u""",\n     n]', 'List')],
     'stmt': [('x = 1\ny = 2', 'stmts'), ('pass', 'stmts'), ('', 'stmts'), ('# own\nz = 3  # tr\n', 'stmts'),
              ('if a: b\nc', 'stmts'), ("'''d'''\ne", 'stmts')],
     'pattern': [('a, b', 'pattern'), ('[x]', 'pattern'), ('[]', 'pattern')],
@@ -159,7 +162,7 @@ def pure_ast_safe(text, mode):
 
 
 def enumerate_ops(src: str, *, nk=3, nks=2, forms=('src', 'ast', 'fst'), opts=({},), kinds=None, max_slice_len=4,
-                  tree=None, extra=(), lc_texts=('lc', None)):
+                  tree=None, extra=(), lc_texts=('lc', None), seq_from=0):
     """All operation instances of the alphabet enabled on `src` (a Module program)."""
     tree = tree or ast.parse(src)
     want = lambda k: kinds is None or k in kinds  # noqa: E731
@@ -212,7 +215,7 @@ def enumerate_ops(src: str, *, nk=3, nks=2, forms=('src', 'ast', 'fst'), opts=({
                     for i in range(n + 1):
                         for j in range(i, n + 1):
                             if want('put_slice'):
-                                for text, mode in seqs[:nks]:
+                                for text, mode in seqs[seq_from:nks]:
                                     for form in forms:
                                         if form == 'ast' and (mode not in ('Tuple', 'List', 'Set', 'stmts')
                                                               or pure_ast_safe(text, mode) is None):
